@@ -7,7 +7,7 @@
 use super::meta::discover_local_fingerprints;
 use super::wire::{cas_decide, read_frame, write_frame, Cas, Hash, Request, Response, VERSION};
 use fs2::FileExt;
-use std::io::{BufReader, BufWriter, Read, Write};
+use std::io::{BufReader, BufWriter, Read, Seek, SeekFrom, Write};
 use std::path::{Component, Path, PathBuf};
 
 /// Join a client-supplied relative path under `root`, rejecting absolute paths
@@ -97,15 +97,21 @@ fn handle_get<W: Write>(root: &Path, path: &str, w: &mut W) -> std::io::Result<(
     let Some(dst) = safe_join(root, path) else {
         return write_frame(w, &Response::Error("bad path".into()));
     };
-    match (std::fs::metadata(&dst), current_hash(&dst)) {
-        (Ok(m), Some(hash)) => {
-            write_frame(w, &Response::Content { len: m.len(), hash })?;
-            let mut f = std::fs::File::open(&dst)?;
-            std::io::copy(&mut f, w)?;
-            w.flush()
-        }
-        _ => write_frame(w, &Response::Error("not found".into())),
-    }
+    // One open handle for the length, the hash and the content: commits replace the
+    // path by rename and never touch this inode, so all three describe one version
+    // (three separate path lookups could straddle a concurrent commit).
+    let opened = std::fs::File::open(&dst).and_then(|f| f.metadata().map(|m| (f, m)));
+    let (mut f, len) = match opened {
+        Ok((f, m)) if m.is_file() => (f, m.len()),
+        _ => return write_frame(w, &Response::Error("not found".into())),
+    };
+    let mut hasher = blake3::Hasher::new();
+    std::io::copy(&mut f, &mut hasher)?;
+    let hash = *hasher.finalize().as_bytes();
+    f.seek(SeekFrom::Start(0))?;
+    write_frame(w, &Response::Content { len, hash })?;
+    std::io::copy(&mut f.take(len), w)?;
+    w.flush()
 }
 
 #[allow(clippy::too_many_arguments)]
